@@ -278,7 +278,7 @@ def dag_prog(rng, name, nnodes, with_broadcast, tier):
             if op == 'mul' and ub[a] * ub[b] > 1e6: op = 'add'
             r = p.bind('%s %s %s' % (op, a, b)); shp[r] = list(sa)
             ub[r] = ub[a] * ub[b] if op == 'mul' else (max(ub[a], ub[b]) if op == 'elmax' else ub[a] + ub[b])
-        elif kind < 0.70 and sa:
+        elif kind < 0.70 and sa and prod(sa) <= 150:
             # concat of 2-3 operands, possibly the same one twice, possibly an untracked constant first
             d = rng.randrange(len(sa))
             ops = [a]
@@ -310,7 +310,7 @@ def dag_prog(rng, name, nnodes, with_broadcast, tier):
             r = p.bind('reshape %s %s' % (a, ints(f))); shp[r] = list(f); p.tag('reshape'); ub[r] = ub[a]
         elif kind < 0.88 and len(sa) >= 2:
             r = p.bind('transpose %s' % a); shp[r] = sa[:-2] + [sa[-1], sa[-2]]; p.tag('transpose'); ub[r] = ub[a]
-            if rng.random() < 0.5 and ub[a] < 1e3:
+            if rng.random() < 0.5 and ub[a] < 1e3 and prod(sa[:-2]) * sa[-2] * sa[-2] <= 600 and prod(sa) <= 600:
                 m = p.bind('matmul %s %s' % (a, r)); shp[m] = sa[:-2] + [sa[-2], sa[-2]]; ub[m] = ub[a] * ub[a] * sa[-1]
                 nodes.append(r); used[r] = 1; r = m; p.tag('matmul')
         elif kind < 0.92 and sa:
